@@ -36,6 +36,8 @@ def seeds_table():
         by = ""
         if r:
             res = "caught" if r.get("caught") else "MISSED"
+            if not r.get("caught") and str(r.get("demo_changed_rc")) == "0":
+                res = "obsolete at HEAD (a later fix: commit made the change harmless: its demo passes)"
             if r.get("caught") and not r.get("caught_with_failing_input", True): res += " (no-failing-input-found)"
             for p, c in r.get("checks", {}).items():
                 fr = c.get("first_replay") or {}
